@@ -212,6 +212,8 @@ def table() -> dict[str, Prop]:
     props["C11"].rules.append(SW.rule_fanout)          # the same coherence through the facade
     props["C14"].rules.append(RR.rule_swallow)         # an exception from user code propagates
     props["C14"].rules.append(SW.rule_fanout)          # reset_rules restores all four rulers with enableOnly
+    props["C08"].rules.append(PL.rule_oneline)         # raw source slices never span lines
+    props["C16"].rules.append(PL.rule_oneline)
     props["C12"].rules.append(EF.rule_eff_config)      # creating / configuring one instance writes nothing shared
     props["C13"].rules.append(EF.rule_alias)           # class-level mutables are shared between concurrent parses too
     return props
